@@ -324,7 +324,12 @@ def _dir_sets(pat):
             if q.get("p") == "or":
                 return {n for x in q["pats"] for n in names(x)}
             if q.get("p") in ("path", "tstruct"):
-                return {q["res"].get("path", "").split("::")[-1]}
+                nm = q["res"].get("path", "").split("::")[-1]
+                if nm == "Some" and len(q.get("pats", [])) == 1:
+                    return names(q["pats"][0])  # `(Some(Direction::Up), Some(..))`: the direction inside
+                return {nm} if nm in ("Up", "Down", "Left", "Right") else set()
+            if q.get("p") == "ref":
+                return names(q["sub"])
             return set()
         out.append((names(pat["pats"][0]), names(pat["pats"][1])))
     return out
